@@ -14,7 +14,8 @@ var (
 	pOdd   = modPath + "/sib/odd-dir"
 )
 
-var basics = []string{"int", "string", "bool", "float64", "byte", "rune", "int64", "uint32", "uintptr", "complex128"}
+var basics = []string{"int", "string", "bool", "float64", "byte", "rune", "int64", "uint32", "uintptr", "complex128",
+	"int8", "int16", "int32", "uint", "uint8", "uint16", "uint64", "float32", "complex64", "int", "string", "bool"}
 
 var exportedNames = []string{"Foo", "Bar", "Baz", "Get", "Set", "Do", "Run", "Close", "Plain", "DeepOnly"}
 var unexportedNames = []string{"foo", "bar", "helper", "get"}
@@ -287,6 +288,26 @@ func genProgram(r *rand.Rand, name string) *prog {
 		all := append(append([]cand{}, leaves...), mids...)
 		all = append(all, mids...) // favour the two-level ones
 		orig.Embeds = embedsFrom(all, 1+r.IntN(3))
+	}
+	// a share of programs outside the quantifier (never gating; compared with the model only):
+	// a third level of embedding, or a channel type (not handled by ExtractTypeRef)
+	switch r.IntN(9) {
+	case 0:
+		p.Kind = "random-ood"
+		top := gstruct{Name: "Top", Methods: g.methods(r.IntN(3), true, false),
+			Embeds: embedsFrom(mids, 1+r.IntN(2))}
+		p.Structs = append(p.Structs, top)
+		orig.Embeds = append([]gembed{{T: named(g.self, "Top")}}, embedsFrom(leaves, r.IntN(2))...)
+	case 1:
+		p.Kind = "random-ood"
+		m0 := &orig.Methods[0]
+		el := pick(r, []*gty{basic("int"), named(g.self, "Loc"), named(pPlain, "T")})
+		m0.Ps = append([]gpar{par(func() string {
+			if len(m0.Ps) > 0 && m0.Ps[0].Name != "" {
+				return "ch"
+			}
+			return ""
+		}(), &gty{K: "chan", Elem: el})}, m0.Ps...)
 	}
 	p.Structs = append(p.Structs, orig)
 	p.Targets = append(p.Targets, "Original")
